@@ -104,5 +104,37 @@ theorem topoFrom_split (deps : DepFn) : ∀ (l1 : List Nat) (added : List Nat) (
       · exact Or.inl h'
     · exact Or.inr (List.mem_cons_of_mem _ h')
 
+theorem topoFrom_append (deps : DepFn) : ∀ (l1 added l2 : List Nat),
+    TopoFrom deps added (l1 ++ l2) → TopoFrom deps (l1.reverse ++ added) l2 := by
+  intro l1
+  induction l1 with
+  | nil => intro added l2 h; simpa using h
+  | cons x l1 ih =>
+    intro added l2 h
+    have := ih (x :: added) l2 h.2
+    simpa using this
+
+/-- In a dependency-respecting order every *transitive* dependency of a field is a runtime
+parameter or stands earlier (parameters have no dependencies of their own). -/
+theorem topoFrom_transitive (deps : DepFn) (params : List Nat) (hp : ∀ p ∈ params, deps p = [])
+    {f d : Nat} (hd : DependsOn deps f d) : ∀ (l1 l2 : List Nat),
+    TopoFrom deps params (l1 ++ f :: l2) → d ∈ params ∨ d ∈ l1 := by
+  induction hd with
+  | direct h => intro l1 l2 ht; exact topoFrom_split deps l1 params _ l2 ht _ h
+  | @step f m d hm _ ih =>
+    intro l1 l2 ht
+    rcases topoFrom_split deps l1 params f l2 ht m hm with hmp | hml
+    · -- a parameter has no dependencies
+      rename_i hmd
+      have := hp m hmp
+      cases hmd with
+      | direct h => rw [this] at h; cases h
+      | step h _ => rw [this] at h; cases h
+    · obtain ⟨a, b, rfl⟩ := List.append_of_mem hml
+      have ht' : TopoFrom deps params (a ++ m :: (b ++ f :: l2)) := by simpa using ht
+      rcases ih a (b ++ f :: l2) ht' with h | h
+      · exact Or.inl h
+      · exact Or.inr (by simp [h])
+
 
 end Emboss.Text
